@@ -120,7 +120,7 @@ class C12(TwoSidedFamily):
     finding_bits = {1: "unverified-third-party-key-table"}
     long_lists = ("roundtrip_differs", "author_mismatch", "overlap_accepted")
     correspondence = "Biscuit/UnverifiedBiscuit histories vs Model.Symbols"
-    rule = ("22 hand-written histories (known finding, hand-made first-party blocks that redeclare a default "
+    rule = ("50 hand-written histories (known finding, every default symbol as predicate name and string in authority, appended and third-party blocks, hand-made first-party blocks that redeclare a default "
             "symbol / an earlier symbol / an earlier key, sealing) + seeded random histories of 1-6 operations "
             "(append, append_third_party, seal, reload on Biscuit or UnverifiedBiscuit; hand-made first-party "
             "blocks signed with append_serialized) over a pool of 8 predicate names (4 default symbols), 9 strings, "
